@@ -357,6 +357,10 @@ class Env:
             self.mm = metamodel_from_file("/sim/g/main.tx", **kw)
         else:
             self.mm = metamodel_from_str(("Top: Model | INT;\n" if cfg.get("prim_root") else "") + grammar(), **kw)
+        if cfg.get("built_twice") and self.classes and not cfg.get("grammar_files") and not cfg.get("prim_root"):
+            # the same user classes handed to a second metamodel of the same grammar, built later; the loads use the
+            # first one (an application that builds its metamodel per request)
+            self.mm_later = metamodel_from_str(grammar(), **kw)
         self.snapshot = class_snapshot(self.classes)
         rec = self.rec
         base = base_provider(cfg["family"])
@@ -701,6 +705,7 @@ def draw_cfg(t, prop, nfiles):
         "memo": t.chance(1, 5, "memo"),
         "global_repo": t.chance(1, 2 if prop == "C13" else 3, "global-repo"),
         "grammar_files": t.chance(1, 5, "grammar-in-several-files"),
+        "built_twice": t.chance(1, 6, "metamodel-built-twice-with-the-same-classes"),
         "prim_root": bool(classes) and t.chance(1, 8, "primitive-root-rule"),
         "prim_root_kind": t.pick(["int", "decimal", "tuple", "frozenset"], "primitive-root-kind"),
     }
